@@ -536,6 +536,17 @@ def run(ck, prog, ctx):
         for x in lifted(b):
             if x not in stray:
                 stray.append(x)
+    for b in list(stray):
+        # a method of the same impl that an annotate_K hands its work to (`annotate_gene` -> a new bulk `annotate_gene_terms`) and that propagates
+        # every term it records through link_K_term is annotate_K's own pairing under another name: the who-may-write rule is about writers
+        # that record WITHOUT linking
+        hands = [cb_ for cb_, _, _ in prog.callers_of(b.id) if allowed.search(cb_.id) and cb_.impl_self == b.impl_self]
+        if hands:
+            stems_ = {st_ for K_, (st_, _, _) in KINDS.items() if any(h_.id.endswith("::annotate_" + st_) for h_ in hands)}
+            links_ = {st_ for st_ in stems_ if any(t_.callee.res == B + "link_%s_term" % st_ for fb_ in prog.family(b) for _, t_ in fb_.calls())}
+            if stems_ and links_ == stems_:
+                stray.remove(b)
+                ck.ob("PHASE", "hpos/writer/" + b.short, True, "%s records direct terms and propagates them through link_%s_term; %s hands its work to it" % (b.short, sorted(stems_)[0], hands[0].short), where=b.where())
     for b in stray:
         ck.violation("PHASE", "hpos/writer/" + b.short, "%s writes a record's direct-term list (allowed: annotate_K and the record decoders)" % b.short, where=b.where())
     ck.ob("PHASE", "hpos/writers", not stray, "callers of the record list writers: %s" % sorted(b.short for b in writers))
